@@ -562,4 +562,26 @@ theorem instantiate_valid_aux {s : List Char} {so : SO} (h : instantiate s = som
   | _ => trivial
 
 
+
+theorem resolvableOpB_iff (reg0 : Registry) (op : Opcode) :
+    resolvableOpB reg0 op = true ↔ ResolvableOp reg0 op := by
+  unfold resolvableOpB ResolvableOp Canon
+  simp only [Bool.or_eq_true, Bool.and_eq_true, Bool.not_eq_true', List.contains_eq_mem,
+    decide_eq_true_eq, decide_eq_false_iff_not]
+  constructor
+  · rintro (h | ⟨hn, hf⟩)
+    · exact Or.inl h
+    · right
+      refine ⟨hn, ?_⟩
+      split at hf
+      · rename_i f hfind
+        exact ⟨f, hfind, by simpa using hf⟩
+      · cases hf
+  · rintro (h | ⟨hn, f, hfind, hcr⟩)
+    · exact Or.inl h
+    · right
+      refine ⟨hn, ?_⟩
+      rw [hfind]
+      simp [hcr]
+
 end BMV.Json
